@@ -721,6 +721,9 @@ def length(I, v):
         return Sym(INT, z3.Length(v.t))
     if isinstance(v, (SArr, SRecList)):
         return v.n
+    from .libb import CharList
+    if isinstance(v, CharList):
+        return length(I, v.s)
     if isinstance(v, SymEnumerate):
         return length(I, v.seq)
     if isinstance(v, SymRange):
@@ -811,8 +814,8 @@ def subscript(I, o, k):
                 raise PyExc('IndexError')
         o = Sym(STR, z3.StringVal(o))
     if isinstance(o, Sym) and o.kind == STR:
-        i = norm_index(I, k, Sym(INT, z3.Length(o.t)))
-        return Sym(STR, z3.SubString(o.t, I.term(i), 1))
+        i = k if I.noforking else norm_index(I, k, Sym(INT, z3.Length(o.t)))
+        return SChar(z3.SubString(o.t, I.term(i), 1), o, i)
     if isinstance(o, SSeq):
         i = k if I.noforking else norm_index(I, k, Sym(INT, z3.Length(o.t)))
         return elem_value(I, o.t[I.term(i)], o.elem)
@@ -822,6 +825,9 @@ def subscript(I, o, k):
     if isinstance(o, SRecList):
         i = k if I.noforking else norm_index(I, k, o.n)
         return RecView(o, i)
+    from .libb import CharList
+    if isinstance(o, CharList):
+        return subscript(I, o.s, k)
     r = libdt.subscript(I, o, k)
     if r is not NOTFOUND:
         return r
